@@ -21,3 +21,40 @@ Theorem c04_frames_self_delimiting : forall (fs : list (N * bytes)) fuel,
   spec_stream_parse fuel (flat_map (fun tb => spec_frame_enc (fst tb) (snd tb)) fs) = Some fs.
 Proof. exact frames_self_delimiting. Qed.
 Print Assumptions c04_frames_self_delimiting.
+
+(* ---- any number of concurrent writers (Writers.v): every interleaving of WriteUpdate calls, the FSM's
+   own writes and session ends, with one conn.Write per message (atomic: trusted runtime fact) ---- *)
+From Coq Require Import List. Import ListNotations.
+From Verif Require Import Writers WritersProofs.
+
+(* each nil-returning WriteUpdate(b) appears exactly once as an UPDATE with body b, successive calls of one
+   writer in call order, on the connection the writer is bound to, and nothing else is attributed to it *)
+Theorem c04_exactly_once_in_order : forall es c w,
+  from_writer (fst (wrun winit es)) c w = map update_frame (acked es (snd (wrun winit es)) c w).
+Proof. exact writer_exactly_once_init. Qed.
+Print Assumptions c04_exactly_once_in_order.
+
+(* the remote's strict parser recovers exactly the appended frames from the byte stream of every connection *)
+Theorem c04_stream_is_whole_messages : forall es c,
+  Forall wevent_ok es ->
+  let s := fst (wrun winit es) in
+  spec_stream_parse (S (length (frames_of s c))) (wire_of s c) = Some (map frame_tb (frames_of s c)).
+Proof. exact wire_parses. Qed.
+Print Assumptions c04_stream_is_whole_messages.
+
+(* once the session has ended: WriteUpdate fails, and no frame is ever added to that connection again
+   (writes go only to the connection named in the call: a writer never reaches a later connection) *)
+Theorem c04_after_end_fails : forall s c w b, ended s c = true -> wstep s (WWrite c w b) = (s, Some false).
+Proof. exact ended_writer_inert. Qed.
+Print Assumptions c04_after_end_fails.
+
+Theorem c04_nothing_after_end : forall es s c, ended s c = true -> frames_of (fst (wrun s es)) c = frames_of s c.
+Proof. exact nothing_after_end. Qed.
+Print Assumptions c04_nothing_after_end.
+
+Example c04_writers_example :
+  let es := [WWrite 1 7 [1]; WFsm 1 keepalive_encode; WWrite 1 8 [2]; WWrite 1 7 [3]; WEnd 1; WWrite 1 7 [4]; WWrite 2 9 [5]] in
+  snd (wrun winit es) = [Some true; None; Some true; Some true; None; Some false; Some true]
+  /\ from_writer (fst (wrun winit es)) 1 7 = [update_frame [1]; update_frame [3]]
+  /\ frames_of (fst (wrun winit es)) 2 = [update_frame [5]].
+Proof. vm_compute. repeat split. Qed.
